@@ -20,6 +20,10 @@ CONSTANTS MaxCalls,
           NrefPersists,   \* FALSE: a refinement passed to propagate applies to
                           \*   that call only (the code, after the repair);
                           \*   TRUE: it stays switched on (negative control)
+          FreeModeLocal,  \* TRUE: the start level of the integration chosen by
+                          \*   propagate(rho, free_hierarchy=True) is local to
+                          \*   that call (the code); FALSE: it stays on the
+                          \*   propagator (negative control)
           RestoreOnError, \* TRUE: a refinement passed to propagate is taken back
                           \*   also when the propagation raises (the code:
                           \*   try / finally); FALSE: negative control
@@ -35,17 +39,21 @@ VARIABLES userNref,    \* refinement the user set with setDtRefinement (input)
           ado,         \* "empty" | "used"   hierarchy.ado
           hamProt,     \* Hamiltonian.is_basis_protected
           hamCut,      \* couplings currently subtracted (JR held aside)
+          heomFree,    \* the hierarchy propagator would start its next
+                       \* integration above level 0 (free-hierarchy mode left
+                       \* switched on)
           nefIc,       \* initial condition the stored inhomogeneous term of
                        \* the neF tensor was computed for (0 = none | 1 | 2)
           ncalls,
           lastDet,     \* was the last call's result determined by its inputs?
           lastCall
 
-vars == <<userNref, effNref, ado, hamProt, hamCut, nefIc, ncalls, lastDet,
-          lastCall>>
+vars == <<userNref, effNref, ado, hamProt, hamCut, nefIc, heomFree, ncalls,
+          lastDet, lastCall>>
 
 Init == /\ userNref = 1 /\ effNref = 1 /\ ado = "empty"
         /\ hamProt = FALSE /\ hamCut = FALSE /\ nefIc = 0
+        /\ heomFree = FALSE
         /\ ncalls = 0 /\ lastDet = TRUE /\ lastCall = "none"
 
 Tick == ncalls' = ncalls + 1
@@ -53,7 +61,7 @@ Tick == ncalls' = ncalls + 1
 \* prop.setDtRefinement(n): an explicit, documented input
 SetRefinement(n) ==
   /\ userNref' = n /\ effNref' = n
-  /\ UNCHANGED <<ado, hamProt, hamCut, nefIc>>
+  /\ UNCHANGED <<ado, hamProt, hamCut, nefIc, heomFree>>
   /\ lastDet' = TRUE /\ lastCall' = "set_refinement" /\ Tick
 
 \* prop.propagate(rho, Nref=k); k = 1 means "argument not given"
@@ -62,7 +70,7 @@ RDMPropagate(k) ==
       want == IF k > 1 THEN k ELSE userNref IN
   /\ lastDet' = (used = want)
   /\ effNref' = IF k > 1 /\ NrefPersists THEN k ELSE effNref
-  /\ UNCHANGED <<userNref, ado, hamProt, hamCut, nefIc>>
+  /\ UNCHANGED <<userNref, ado, hamProt, hamCut, nefIc, heomFree>>
   /\ lastCall' = "rdm_propagate" /\ Tick
 
 \* prop.propagate(rho, Nref=k, ...) that raises after the refinement was
@@ -72,7 +80,7 @@ RDMPropagateRaises(k) ==
   /\ k > 1
   /\ effNref' = IF RestoreOnError THEN effNref ELSE k
   /\ lastDet' = TRUE                          \* no result is returned
-  /\ UNCHANGED <<userNref, ado, hamProt, hamCut, nefIc>>
+  /\ UNCHANGED <<userNref, ado, hamProt, hamCut, nefIc, heomFree>>
   /\ lastCall' = "rdm_propagate_raises" /\ Tick
 
 \* get_RelaxationTensor: protect, (subtract cut-off), build, (recover),
@@ -80,21 +88,30 @@ RDMPropagateRaises(k) ==
 BuildTensor(cutoff) ==
   /\ hamProt = FALSE /\ hamCut = FALSE          \* precondition = fresh values
   /\ lastDet' = TRUE
-  /\ UNCHANGED <<userNref, effNref, ado, hamProt, hamCut, nefIc>>
+  /\ UNCHANGED <<userNref, effNref, ado, hamProt, hamCut, nefIc, heomFree>>
   /\ lastCall' = "build_tensor" /\ Tick
 
 \* KTHierarchyPropagator.propagate
 HeomPropagate ==
+  /\ lastDet' = ((HeomResets \/ ado = "empty") /\ ~heomFree)
+  /\ ado' = "used"
+  /\ UNCHANGED <<userNref, effNref, hamProt, hamCut, nefIc, heomFree>>
+  /\ lastCall' = "heom_propagate" /\ Tick
+
+\* KTHierarchyPropagator.propagate(rho, free_hierarchy=True) (as the kernel
+\* calculation of the hierarchy does)
+HeomPropagateFree ==
   /\ lastDet' = (HeomResets \/ ado = "empty")
   /\ ado' = "used"
+  /\ heomFree' = ~FreeModeLocal
   /\ UNCHANGED <<userNref, effNref, hamProt, hamCut, nefIc>>
-  /\ lastCall' = "heom_propagate" /\ Tick
+  /\ lastCall' = "heom_propagate_free" /\ Tick
 
 \* EvolutionSuperOperator.calculate, population and state-vector propagation:
 \* no hidden state is read or written
 Stateless(name) ==
   /\ lastDet' = TRUE
-  /\ UNCHANGED <<userNref, effNref, ado, hamProt, hamCut, nefIc>>
+  /\ UNCHANGED <<userNref, effNref, ado, hamProt, hamCut, nefIc, heomFree>>
   /\ lastCall' = name /\ Tick
 
 \* propagation with the non-equilibrium Foerster tensor on ONE shared state
@@ -102,7 +119,7 @@ Stateless(name) ==
 NefPropagate(ic) ==
   /\ lastDet' = (NefRecomputes \/ nefIc \in {0, ic})
   /\ nefIc' = ic
-  /\ UNCHANGED <<userNref, effNref, ado, hamProt, hamCut>>
+  /\ UNCHANGED <<userNref, effNref, ado, hamProt, hamCut, heomFree>>
   /\ lastCall' = "nef_propagate" /\ Tick
 
 Next ==
@@ -111,7 +128,7 @@ Next ==
   \/ \E k \in {1, 4} : RDMPropagate(k)
   \/ RDMPropagateRaises(4)
   \/ \E c \in BOOLEAN : BuildTensor(c)
-  \/ HeomPropagate
+  \/ HeomPropagate \/ HeomPropagateFree
   \/ \E nm \in {"eso_calculate", "pop_propagate", "sv_propagate",
                  "nef_eso_calculate"} : Stateless(nm)
 
